@@ -400,9 +400,16 @@ impl EncDict {
 
     /// §7.6.6: which method a crypt filter name selects.
     pub fn resolve(&self, name: Option<&[u8]>, q: &Quirks) -> Result<Method, String> {
+        self.resolve_for(name, q, false)
+    }
+
+    /// `is_override`: the name comes from a stream's own Crypt filter (not from StmF / StrF).
+    pub fn resolve_for(&self, name: Option<&[u8]>, q: &Quirks, is_override: bool) -> Result<Method, String> {
         if self.v < 4 {
             return Ok(Method::Rc4);
         }
+        // the RC4 fallback quirk concerns the document-level defaults only
+        let q = &Quirks { missing_filter_is_rc4: q.missing_filter_is_rc4 && !is_override, ..*q };
         let name: &[u8] = name.unwrap_or(b"Identity");
         if let Some(cfm) = self.cf.get(name) {
             // a CF entry *named* Identity is not allowed by the standard; the predefined filter wins
@@ -666,6 +673,11 @@ pub enum Role {
 /// Authenticate a (prepared) password in one role and return the file encryption key.
 /// For revisions 5-6 the Perms entry is validated too (Algorithm 2.A step f).
 pub fn derive(enc: &EncDict, id0: &[u8], pw: &[u8], role: Role) -> Result<Vec<u8>, String> {
+    derive_opt(enc, id0, pw, role, true)
+}
+
+/// `truncate127 = false` skips the truncation of Algorithm 2.A step (a) (classifier only).
+pub fn derive_opt(enc: &EncDict, id0: &[u8], pw: &[u8], role: Role, truncate127: bool) -> Result<Vec<u8>, String> {
     if enc.r <= 4 {
         match role {
             Role::User => alg6_user(enc, id0, pw).ok_or_else(|| "user password not accepted (Algorithm 6)".to_string()),
@@ -673,7 +685,9 @@ pub fn derive(enc: &EncDict, id0: &[u8], pw: &[u8], role: Role) -> Result<Vec<u8
         }
     } else {
         let mut p = pw.to_vec();
-        p.truncate(127);
+        if truncate127 {
+            p.truncate(127);
+        }
         let key = match role {
             Role::User => alg2a_user(enc, &p).ok_or_else(|| "user password not accepted (Algorithm 11)".to_string())?,
             Role::Owner => alg2a_owner(enc, &p).ok_or_else(|| "owner password not accepted (Algorithm 12)".to_string())?,
@@ -831,7 +845,11 @@ impl Ctx<'_> {
                     _ => None,
                 };
                 let name = parms.and_then(|p| get_name(p, b"Name"));
-                return self.enc.resolve(name.as_deref(), &self.q);
+                return match self.enc.resolve_for(name.as_deref(), &self.q, true) {
+                    // lopdf reads an override that names an unknown filter as Identity
+                    Err(_) if self.q.missing_filter_is_rc4 => Ok(Method::Identity),
+                    x => x,
+                };
             }
             if !self.enc.encrypt_metadata && matches!(d.get(b"Type"), Ok(Object::Name(n)) if n == b"Metadata") {
                 return Ok(Method::Identity);
